@@ -73,7 +73,7 @@ impl Matrix<f64> {
         for i in 0..n {
             state[i] += delta;
             let f_new = func( state.clone() ); 
-            state[i] -= delta;
+            state[i] = point[i]; // "-= delta" does not give the coordinate back when x + delta was rounded
             jac.set_col( i, ( f_new - f.clone() ) / delta );
         }
         jac
@@ -95,7 +95,7 @@ impl Matrix<Cmplx> {
         for i in 0..n {
             state[i] += Cmplx::new( delta, 0.0 );
             let f_new = func( state.clone() ); 
-            state[i] -= Cmplx::new( delta, 0.0 );
+            state[i] = point[i]; // "-= delta" does not give the coordinate back when x + delta was rounded
             jac.set_col( i, ( f_new - f.clone() ) / Cmplx::new( delta, 0.0 ) );
         }
         jac
